@@ -91,7 +91,7 @@ func fitnessOf(p FitnessProg, epoch, i, n int, g *genetics.Genome) float64 {
 }
 
 type Scenario struct {
-	Ctor          string      `json:"constructor"` // spawn | random | read | reread
+	Ctor          string      `json:"constructor"`          // spawn | random | read | reread
 	PreEpochs     int         `json:"pre_epochs,omitempty"` // reread: epochs evolved before the population is written and read back
 	Start         GenomeSpec  `json:"start"`
 	RandIn        int         `json:"rand_in,omitempty"`
